@@ -456,7 +456,6 @@ class HamiltonianChain(MarkovChain):
             start=None,
             grad=grad,
             bounds=bounds,
-            inverse_mass=array(D["inv_mass"]),
             temperature=1.0 / float(D["inv_temp"]),
             display_progress=bool(D["display_progress"]),
         )
@@ -465,6 +464,12 @@ class HamiltonianChain(MarkovChain):
         chain.probs = list(D["probs"])
         chain.leapfrog_steps = list(D["leapfrog_steps"])
         chain.n_parameters = int(D["n_parameters"])
+        # re-build the particle mass (a scalar inverse-mass is stored as a 0D array)
+        inv_mass = D["inv_mass"]
+        chain.mass = get_particle_mass(
+            inverse_mass=float(inv_mass) if inv_mass.ndim == 0 else inv_mass,
+            n_parameters=chain.n_parameters,
+        )
         chain.chain_length = int(D["chain_length"])
         chain.steps = int(D["steps"])
 
